@@ -66,8 +66,7 @@ theorem keys_first_appearance {α : Type} (num : Num α) (layout : List Nat) (me
     ∃ out, measurement num prob meas layout.length layout = .ok out ∧
       out.map Prod.fst = firstOcc ((List.range (2 ^ layout.length)).map (keyOfState layout meas)) := by
   refine ⟨_, measurement_eq num prob meas layout hmem, ?_⟩
-  rw [accumulate_keys, List.map_snd_zip (by rw [res_length, hlen]), ← binaryVector_eq_allBits, binaryVector,
-    List.map_map]
+  rw [accumulate_keys, List.map_snd_zip (by rw [res_length, hlen]), ← range_map_bits, List.map_map]
   rfl
 
 /-- **keys_exact.**  For `m` measured qubits that are pairwise distinct and belong to the layout — any number `n` of
@@ -165,7 +164,7 @@ theorem values_marginal {α : Type} [AddCommMonoid α] (num : Num α) (hl : Lawf
     simp only [getV, zero_add]
     have hz : prob.zip ((allBits layout.length).map (proj (positions layout meas))) =
         (List.range (2 ^ layout.length)).map (fun i => (prob.getD i 0, keyOfState layout meas i)) := by
-      conv_lhs => rw [list_eq_map_getD prob 0, hlen, ← binaryVector_eq_allBits, binaryVector, List.map_map]
+      conv_lhs => rw [list_eq_map_getD prob 0, hlen, ← range_map_bits, List.map_map]
       rw [List.zip_map']
       rfl
     rw [hz, List.filter_map, List.map_map]
@@ -548,6 +547,18 @@ theorem rejection_classes (circ : CircArg) (psi0 shots device nqubit : PyVal) (e
 section run
 variable {K : Type} [Field K] [LinearOrder K] [IsStrictOrderedRing K]
 
+private theorem preprocessCheck_ok (data : List Instr) (nqubit : PyVal) (nq : Nat)
+    (hn : asInt? nqubit = some (nq : Int)) (hnq : nq = (processLayout data).1.length) :
+    preprocessCheck (processLayout data) nqubit = .ok () := by
+  unfold preprocessCheck
+  simp only [hn]
+  rw [if_pos]
+  rw [List.all_eq_true]
+  intro t ht
+  have := List.idxOf_lt_length_of_mem ((processLayout_inv data).2 t ht)
+  simp only [decide_eq_true_eq]
+  omega
+
 /-- **C14, first sentence.**  For consistent arguments with `nqubit` = the number of qubits the circuit uses, and for
 *every* non-negative vector with positive total returned by the simulation stage (any gate set, any circuit class, any
 shot count): `run` returns a dict; its values are `≥ 0` and sum to 1; each value is the marginal of its key; and if no
@@ -571,6 +582,7 @@ theorem run_valid_distribution (circ : CircArg) (psi0 shots device nqubit : PyVa
     unfold run runWith
     have : precheckWith true circ psi0 shots device nqubit = .ok (processLayout data) := hpre
     rw [this]
+    simp only [preprocessCheck_ok data nqubit nq hv.2.2.2.1 hnq]
     exact hout
   -- the same `out` seen through `_measurament` on the normalised vector
   have hfin : measurement (fieldNum K) (sim.map fun x => x / sim.sum) (processLayout data).2
@@ -599,12 +611,14 @@ theorem run_valid_distribution (circ : CircArg) (psi0 shots device nqubit : PyVa
 
 /-- consistent arguments but a simulation result whose total is not positive: `AssertionError`, not a result -/
 theorem run_zero_total_is_assertion (circ : CircArg) (psi0 shots device nqubit : PyVal) (data : List Instr) (nq : Nat)
-    (hv : ValidArgs circ psi0 shots device nqubit data nq) (sim : List K) (h : ¬ 0 < sim.sum) :
+    (hv : ValidArgs circ psi0 shots device nqubit data nq) (hnq : nq = (processLayout data).1.length)
+    (sim : List K) (h : ¬ 0 < sim.sum) :
     run (fieldNum K) circ psi0 shots device nqubit sim = .error .assertionError := by
   unfold run runWith
   have : precheckWith true circ psi0 shots device nqubit = .ok (processLayout data) :=
     accepts_valid circ psi0 shots device nqubit data nq hv
   rw [this]
+  simp only [preprocessCheck_ok data nqubit nq hv.2.2.2.1 hnq]
   exact nonfinite_is_assertion _ sim h
 
 end run
